@@ -17,21 +17,23 @@ type M = world.M
 
 // GenOpts biases scenario generation.
 type GenOpts struct {
-	World        world.Opts
-	TriggerTypes []string // manual msg flow_action (default all)
-	Batch        bool     // allow batch triggers
-	StaleGroups  bool     // contact may carry wrong query-group membership
-	Statuses     []string // contact statuses (default active mostly)
-	Redaction    bool     // allow redaction policy urns
-	Refresh      bool     // resumes may carry a refreshed contact / environment
-	WrongResumes bool     // deliberately unacceptable resume types
-	Restarts     bool     // draw a restart bit per step
-	LowLimits    bool     // draw small engine limits
-	FrozenClocks bool     // some scenarios run with a clock that stands still within a sprint
-	Inputs       []string // extra input texts
-	MaxSteps     int      // resumes per scenario (default 6)
-	EnvTimezones []string
-	SameTimezone bool // contact timezone unset or equal to the environment's
+	World         world.Opts
+	TriggerTypes  []string // manual msg flow_action (default all)
+	Batch         bool     // allow batch triggers
+	StaleGroups   bool     // contact may carry wrong query-group membership
+	Statuses      []string // contact statuses (default active mostly)
+	Redaction     bool     // allow redaction policy urns
+	Refresh       bool     // resumes may carry a refreshed contact / environment
+	WrongResumes  bool     // deliberately unacceptable resume types
+	Restarts      bool     // draw a restart bit per step
+	LowLimits     bool     // draw small engine limits
+	FrozenClocks  bool     // some scenarios run with a clock that stands still within a sprint
+	ResumeLimits  bool     // draw a small MaxResumesPerSession in half of the scenarios (other limits stay default)
+	NumberFormats bool     // a quarter of the environments use "," as decimal symbol and "." for digit grouping
+	Inputs        []string // extra input texts
+	MaxSteps      int      // resumes per scenario (default 6)
+	EnvTimezones  []string
+	SameTimezone  bool // contact timezone unset or equal to the environment's
 }
 
 var contactNames = []string{"Bob", "Bob Smith", "Ann", "", "Jürgen Müller", "bobby mcgee", "X Æ A-12"}
@@ -51,6 +53,9 @@ func DrawEnv(t *rapid.T, o GenOpts) M {
 	}
 	if o.Redaction && rapid.IntRange(0, 2).Draw(t, "redact") == 0 {
 		m["redaction_policy"] = "urns"
+	}
+	if o.NumberFormats && rapid.IntRange(0, 3).Draw(t, "numberformat") == 0 {
+		m["number_format"] = M{"decimal_symbol": ",", "digit_grouping_symbol": "."}
 	}
 	return m
 }
@@ -223,7 +228,11 @@ func DrawTrigger(t *rapid.T, w *world.World, o GenOpts) M {
 // DrawOptions draws engine options.
 func DrawOptions(t *rapid.T, o GenOpts) Options {
 	if !o.LowLimits {
-		return Options{FrozenClock: o.FrozenClocks && rapid.IntRange(0, 2).Draw(t, "frozenclock") == 0}
+		opts := Options{FrozenClock: o.FrozenClocks && rapid.IntRange(0, 2).Draw(t, "frozenclock") == 0}
+		if o.ResumeLimits {
+			opts.MaxResumesPerSession = rapid.SampledFrom([]int{0, 0, 0, 1, 2, 3, 5}).Draw(t, "maxresumesonly")
+		}
+		return opts
 	}
 	return Options{
 		MaxStepsPerSprint:    rapid.SampledFrom([]int{0, 1, 2, 3, 10, 100}).Draw(t, "maxsteps"),
